@@ -169,6 +169,29 @@ pub fn string_shape_family() -> Vec<Vec<u8>> {
     out
 }
 
+/// One loaded word narrowed by two masks in a row (the second may claim bits the first does not have) and stored, and
+/// narrowed a third way and stored again: nested packed types whose members come out of the type conversion in no
+/// particular order, next to a second slot.
+pub fn overrunning_mask_family() -> Vec<Vec<u8>> {
+    let masks = [0xff00u64, 0xff_0000, 0xff, 0xff_ff00, 0xffff];
+    let mut out = Vec::new();
+    for m1 in masks {
+        for m2 in masks {
+            for m3 in masks {
+                for s2 in [1u64, 2] {
+                    let t: Vec<Tok> = vec![
+                        p(0), o(op::SLOAD), o(op::DUP1),
+                        pu(U::from_u64(m1)), o(op::AND), pu(U::from_u64(m2)), o(op::AND), p(1), o(op::SSTORE),
+                        pu(U::from_u64(m3)), o(op::AND), p(s2), o(op::SSTORE), o(op::STOP),
+                    ];
+                    out.push(assemble(&t));
+                }
+            }
+        }
+    }
+    out
+}
+
 /// The programs of the two families above as bytecode (C01 and C03 run them too: rendering a recursive slot type
 /// must neither overflow the native stack nor loop).
 pub fn recursive_type_programs() -> Vec<Vec<u8>> {
@@ -546,6 +569,12 @@ impl Check for C02 {
                     let code = expand(&seq);
                     let bound = if tier.thorough() { 2 } else { 1 };
                     explore_and_record(ctx, "self_reference_programs", &code, bound, 20_000, &|| json!({"tokens": format!("{seq:?}"), "bytes": hex(&code)}));
+                }
+                for (i, code) in overrunning_mask_family().into_iter().enumerate() {
+                    if i % 16 != c {
+                        continue;
+                    }
+                    explore_and_record(ctx, "overrunning_mask_programs", &code, 1, 20_000, &|| json!({"bytes": hex(&code)}));
                 }
                 for (i, code) in string_shape_family().into_iter().enumerate() {
                     if i % 16 != c {
